@@ -10,6 +10,7 @@ import (
 
 	"verif/harness/internal/core"
 	"verif/harness/internal/ref"
+	"verif/harness/internal/svc"
 )
 
 // Shared runner for the checks that drive the real stream parser through the build-tag hook
@@ -91,6 +92,7 @@ func hookRun(sc *hookScenario) (finds []hookFinding, undefined bool, slow bool) 
 	type liveSnap struct {
 		snap service.VerifMsg
 		at   int
+		hdr  string // every string / byte-slice field of the header (unexported ones included) when the message was returned
 	}
 	var snaps []liveSnap
 	off := 0
@@ -108,6 +110,8 @@ func hookRun(sc *hookScenario) (finds []hookFinding, undefined bool, slow bool) 
 				add("stable", "ID/serial/package numbers of a delivered message changed "+when)
 			case now.Phone != s.Phone:
 				add("stable", "phone number of a delivered message changed "+when)
+			case svc.DumpBytesAndStrings(vp.LiveMessage(i).JTMessage.Header) != snaps[i].hdr:
+				add("stable", "header bytes (BCD phone field) of a delivered message changed "+when)
 			}
 			if len(finds) > 0 && finds[len(finds)-1].Cat == "stable" {
 				return
@@ -123,7 +127,8 @@ func hookRun(sc *hookScenario) (finds []hookFinding, undefined bool, slow bool) 
 		chunk := core.UnHex(op.Feed)
 		msgs, err := vp.Feed(chunk)
 		for _, m := range msgs {
-			snaps = append(snaps, liveSnap{snap: m})
+			idx := len(snaps)
+			snaps = append(snaps, liveSnap{snap: m, hdr: svc.DumpBytesAndStrings(vp.LiveMessage(idx).JTMessage.Header)})
 		}
 		off += len(chunk)
 		if err != nil {
